@@ -370,6 +370,15 @@ def regenerate(repo, verif, ws, crates=("passage-packets", "passage-adapters", "
                     add.append(f"{gate}pub mod verif_{fn[:-3]};")
             with open(librs, "a") as f:
                 f.write("\n// ---- R8: verification harness modules (engine X) ----\n" + "\n".join(add) + "\n")
+            # R8b: accessor snippets appended to individual source files (append/<path with __ for />.rs)
+            adir = os.path.join(hdir, "append")
+            if os.path.isdir(adir):
+                for fn in sorted(os.listdir(adir)):
+                    target = os.path.join(dst, "src", fn.replace("__", "/"))
+                    if not os.path.exists(target):
+                        raise RegenError(f"R8b: {target} does not exist any more")
+                    with open(target, "a") as f:
+                        f.write(open(os.path.join(adir, fn)).read())
     with open(os.path.join(ws, "Cargo.toml"), "w") as f:
         f.write(root_manifest(repo, verif, members))
     shutil.copy(os.path.join(repo, "Cargo.lock"), os.path.join(ws, "Cargo.lock"))
